@@ -18,8 +18,9 @@ LEVEL_TEXT = (
     "(temporaries + rename / a commit marker written last and verified first) or cross-file validation in load/restore "
     "(a comparison between values originating in different files that raises); without one, every window between two "
     "consecutive file writes is a state in which a crash leaves a mixture that restore accepts, and is reported keyed by "
-    "the file pair, so a re-ordering produces new keys; (R2) SQLite transaction discipline: the connection is not in "
-    "autocommit mode, no destructive SQL reaches the auto-committing executescript, DELETE and INSERT are executed in "
+    "the file pair, so a re-ordering produces new keys - and so is one file written in two steps on one path; (R2) SQLite "
+    "transaction discipline: the connection is not in autocommit mode, no PRAGMA switches off the rollback journal or "
+    "synchronous writes, no destructive SQL reaches the auto-committing executescript, DELETE and INSERT are executed in "
     "that order inside the transaction that commit() closes, every exceptional path reaches rollback and every exit "
     "close; (R3) no handler on a load path swallows an exception. Byte-level truncation inside one file is not decided."
 )
